@@ -61,3 +61,8 @@ package types
 //@   assigns nothing
 //@   ensures [C11] method: err == nil ==> IsGCM(ea.EncryptionMethod.Algorithm) || IsCBC(ea.EncryptionMethod.Algorithm)
 //@   ensures [C11] data: err == nil ==> b64ok(ea.CipherValue)
+// CBC unpadding (xmlenc): the last byte is the pad length N, 1 <= N <= block size; exactly N bytes are removed and
+// nothing but an impossible pad length is rejected at that stage (so every residue of the plaintext length round-trips).
+//@   exit [C11] cbc.accept: IsCBC(ea.EncryptionMethod.Algorithm) && int(padLength) <= len(data) ==> err == nil
+//@   exit [C11] cbc.strip: IsCBC(ea.EncryptionMethod.Algorithm) && err == nil ==> lastGoodIndex == len(data) - int(padLength) && len(out) == lastGoodIndex
+//@   exit [C11] gcm.split: IsGCM(ea.EncryptionMethod.Algorithm) && err == nil ==> len(nonce) == 12 && out == plainText
